@@ -683,8 +683,12 @@ func runClients(sc scenario, emit func(key, msg string)) *result {
 			var cs grpc.ClientStream
 			cs, err = cc.NewStream(ctx, &grpc.StreamDesc{ClientStreams: true, ServerStreams: true}, "/verif.Stop/Stream", grpc.ForceCodec(wire.RawCodec{}))
 			if err == nil {
-				if err = cs.SendMsg([]byte("q")); err == nil {
+				// SendMsg returning io.EOF only says that the stream has already ended;
+				// the status is what RecvMsg returns
+				if serr := cs.SendMsg([]byte("q")); serr == nil {
 					cs.CloseSend()
+				} else if serr != io.EOF {
+					err = serr
 				}
 				for err == nil {
 					var b []byte
